@@ -213,6 +213,15 @@ def run(tier: str, seed: int) -> int:
     chk = Check("C05", tier, seed, "model_checking")
     chk.model_check("MC_Text")
     chk.model_check("MC_SigmaStr", "MC_SigmaStr.cfg" if tier == "quick" else "MC_SigmaStr_thorough.cfg")
+    # results remembered on a value object between renderings for different targets
+    chk.model_check("MC_Memo")
+    from .. import tlc
+
+    neg = tlc.run_tlc("MC_Memo", "MC_Memo_negative.cfg", workers=2, check_ok=False)
+    if neg.invariant_violated != "AnswersTheRequest":
+        raise tlc.MachineryError("negative control MC_Memo_negative.cfg: a memo keyed by the object alone not refuted")
+    chk.coverage["negative_control_memo"] = {"cfg": "MC_Memo_negative.cfg (the memo is keyed by the object alone, not by the parameters of the request)",
+                                             "refuted_invariant": neg.invariant_violated}
     cfgpath = chk.path("c05_cfg.json")
     cases = chk.generate("Gen_C05", shards=[1, 2, 3, 4], env={"VERIF_OUT2": cfgpath})
     # plus the texts the repository's own tests build Sigma strings from
